@@ -233,6 +233,8 @@ func crashScenario(spec *crashSpec) *Scenario {
 			// teardown the association accepts no new work (a stream opened then would never
 			// be unregistered: its reader hangs for ever)
 			pside := sideOf(spec.X)
+			lateOpened := false
+			_ = lateOpened
 			probe := m.Go("probe", func() {
 				me := m.S.Cur()
 				m.S.SetUrgent(me, true)
@@ -256,10 +258,21 @@ func crashScenario(spec *crashSpec) *Scenario {
 				if err != nil {
 					return
 				}
-				m.Failf("teardown.open", "OpenStream succeeded on side %d after its read loop had finished the teardown (state %s)", pside, getAssociationStateString(m.As[pside].getState()))
+				// accepted: then it is a stream like any other, a reader blocked on it has to come
+				// back with the closure like every other call of that side
 				mu.Lock()
 				m.streamsSeen = append(m.streamsSeen, ls)
 				mu.Unlock()
+				lateOpened = true
+				track(pside, m.Go("read-late-stream", func() {
+					buf := make([]byte, 64)
+					for {
+						if _, _, err := ls.ReadSCTP(buf); err != nil {
+							noteErr("read-late-stream", err)
+							return
+						}
+					}
+				}))
 			})
 			_ = probe
 			// the crasher
